@@ -516,6 +516,13 @@ func (c *Conn) Close() error {
 
 	fr.SetBody(ga)
 
+	// A server that has stopped reading can keep the write loop inside a
+	// socket write, and with it bwLck, for as long as TCP is prepared to wait:
+	// Close then never got as far as closing the socket. Nothing written from
+	// here on, the GOAWAY included, is worth more than a moment, and the
+	// deadline cuts the write in progress short as well.
+	_ = c.c.SetWriteDeadline(time.Now().Add(writeDrainTimeout))
+
 	c.bwLck.Lock()
 
 	_, err := fr.WriteTo(c.bw)
